@@ -25,6 +25,7 @@ CONSTANTS Schema,     \* sequence of [n, k, m]: the data columns
           LateInitSel,\* BOOLEAN: the selection may be taken at any point of the body (else right after Begin)
           Keyed,      \* BOOLEAN: rows are created through InsertKey / UpsertKey (the schema has a key column)
           Snap,       \* the actor taking one snapshot of P ("none": no snapshot)
+          SnapFails,  \* BOOLEAN: the snapshot's destination may fail at any point (the snapshot is then retried)
           Rst,        \* the actor restoring that snapshot into S at the end
           Rep,        \* the actor replaying on R
           ReplayAtEnd \* BOOLEAN: replay only once every writer is done (replays commute with the primary's steps)
@@ -137,6 +138,8 @@ SnapStep ==
   /\ Snap # "none"
   /\ \/ txn[Snap].pc = "idle" /\ SnapOpen(Snap, "P")
      \/ SnapHeader(Snap) \/ SnapBlock(Snap) \/ SnapClose(Snap) \/ SnapCopy(Snap, "f")
+     \/ SnapFails /\ "f" \notin DOMAIN files /\ ~txn[Snap].replay /\ SnapFail(Snap) /\ txn'[Snap].pc = "done"
+     \/ SnapFails /\ txn[Snap].pc = "done" /\ "f" \notin DOMAIN files /\ SnapOpen(Snap, "P")
 RestoreStep ==
   /\ Snap # "none" /\ "f" \in DOMAIN files
   /\ \/ txn[Rst].pc = "idle" /\ RestoreBegin(Rst, "S", "f", FALSE)
@@ -170,6 +173,10 @@ ConsistentCut ==
      (Excused({"D-inflight-insert-visible", "D-failed-insert-applied", "D-write-dead-row", "D-dead-delete", "D-swap-append"}) \/
       \A i \in DOMAIN st["P"].ap :
          \E k \in files["f"].lo[i]..files["f"].hi[i] : BlockProj(st["S"], i - 1) = st["P"].ap[i][k])
+
+\* C14: whenever no snapshot is running the recorder is detached
+RecorderClean ==
+  \A c \in Colls : (\A t \in Actors : ~(txn[t].c = c /\ txn[t].pc \in {"snap.open", "snap.blocks", "snap.copy"})) => ~st[c].rec.open
 
 \* C02: a transaction that ends without committing anything (error, or nothing buffered) leaves no trace:
 \* the collection is exactly as before except that the offsets it had reserved are free again
